@@ -311,7 +311,12 @@ func (r *DeploymentReconciler) reconcileSliceWithCollisionCount(
 	}
 	// object already exists, check for hash collision
 	isController := r.ownerStrategy.IsController(deploy.ClientObject(), conflictingSlice.ClientObject())
-	isEqual := equality.Semantic.DeepEqual(conflictingSlice.GetObjects(), slice.GetObjects())
+	// The API server defaults collisionProtection of every object in a stored slice,
+	// compare the defaulted form or our own slices never look equal.
+	isEqual := equality.Semantic.DeepEqual(
+		withDefaultedCollisionProtection(conflictingSlice.GetObjects()),
+		withDefaultedCollisionProtection(slice.GetObjects()),
+	)
 	if isController && isEqual {
 		// we are controller and object is equal
 		// -> all good, just a slow cache :)
@@ -358,4 +363,17 @@ func getChangeCause(
 	}
 
 	return fmt.Sprintf("Package %s changed.", strings.Join(changes, " and "))
+}
+
+// withDefaultedCollisionProtection returns a copy of objects with the API default
+// for .collisionProtection applied.
+func withDefaultedCollisionProtection(objects []corev1alpha1.ObjectSetObject) []corev1alpha1.ObjectSetObject {
+	out := make([]corev1alpha1.ObjectSetObject, len(objects))
+	for i := range objects {
+		out[i] = objects[i]
+		if len(out[i].CollisionProtection) == 0 {
+			out[i].CollisionProtection = corev1alpha1.CollisionProtectionPrevent
+		}
+	}
+	return out
 }
